@@ -56,4 +56,4 @@ package hash
 //@   ensures result != nil && result.h != nil
 
 // WriteTo of these pointer types tolerates a nil receiver (checked by their own contracts).
-//@ axiom nilok_type(typeid(*pedersen.Parameters)) && nilok_type(typeid(*paillier.PublicKey)) && nilok_type(typeid(*paillier.Ciphertext))
+//@ axiom nilok_type(typeid(*pedersen.Parameters)) && nilok_type(typeid(*paillier.PublicKey)) && nilok_type(typeid(*paillier.Ciphertext)) && nilok_type(typeid(*big.Int))
